@@ -169,7 +169,7 @@ class Side:
         return RateLimiter.create_limiter(kbps)
 
     # -- downloads ----------------------------------------------------------------------------
-    def new_download(self, local0: bytes | None, bt0: int | None = None):
+    def new_download(self, local0: bytes | None, bt0: int | None = None, listener: str | None = None):
         """A download as the API creates it (QUEUED); local0 != None: an existing local file (as a
         transfer restored from the cache would have)."""
         from aioslsk.transfer.model import TransferDirection
@@ -180,6 +180,15 @@ class Side:
             p = self.W.tmp / f'pre{self.n}.bin'
             p.write_bytes(local0)
             tr.local_path = str(p)
+        if listener:
+            # a user's state listener, registered late (after the transfer was queued), that suspends inside
+            # every transition (listeners are coroutines; Transfer.transition awaits them one by one)
+            loop = self.loop
+
+            class Slow:
+                async def on_transfer_state_changed(self, transfer, old, new):
+                    await asyncio.sleep(0.01 if listener == 'suspend' else 0)
+            tr.state_listeners.append(Slow())
         if bt0 is not None:
             # a progress counter that does not agree with the file (restored from a cache written
             # mid-transfer, or a chunk written while the task was cancelled)
@@ -226,6 +235,10 @@ class Side:
         loop.run_ready(30)
         if ticket not in self.mgr._file_connection_futures and not task.done():
             loop.run_ready(100)
+        if ticket not in self.mgr._file_connection_futures and not task.done():
+            # the uploader opens the file connection only after it received the reply: let (virtual) time pass
+            # (a listener of the transfer may suspend inside the transition)
+            loop.run_for(2)
         fc, fep = self.conn(PeerConnectionType.FILE)
         self.client.network._finalize_peer_connection(fc)
         fc.download_rate_limiter = self.limiter(kbps)
@@ -238,6 +251,8 @@ class Side:
             fep.feed(struct.pack('<I', ticket))
             init = loop.create_task(self.mgr._on_peer_initialized(PeerInitializedEvent(fc, requested=False)))
         loop.run_ready(60)
+        if len(fep.written) < 8 and not task.done():
+            loop.run_for(2)
         wire = bytes(fep.written)
         segs, term = ([], 'timeout')
         if len(wire) == 8 and not task.done():
@@ -309,6 +324,7 @@ class Side:
             tasks.append(tr._transfer_task)
         self.W.run(both())
         loop.run_ready(60)
+        loop.run_for(2)
         conns = {}
         offsets = {}
 
@@ -318,6 +334,7 @@ class Side:
             fep.feed(struct.pack('<I', ticket))
             init = loop.create_task(self.mgr._on_peer_initialized(PeerInitializedEvent(fc, requested=False)))
             loop.run_ready(60)
+            loop.run_for(1)
             conns[ticket] = (fc, fep, init)
             w = bytes(fep.written)
             offsets[ticket] = struct.unpack('<Q', w)[0] if len(w) == 8 else None
@@ -570,6 +587,7 @@ class Pair:
         self.fault_i = 0
         self.breaks = 0
         self.file_links = []
+        self.script_errors = []
         self.links = []
         import aioslsk.network.rate_limiter as rl
         import aioslsk.transfer.manager as tm
@@ -714,6 +732,35 @@ class Pair:
 
     def run(self, seconds):
         self.loop.run_for(seconds, max_iters=2000000)
+
+    def run_script(self, script, horizon):
+        """script: [[t, action, arg]] with t in seconds after the download was requested; actions: user calls
+        (pause / queue of the download, pause_up / queue_up of the upload) and settings changes at run time
+        (limit_down / limit_up: the limiter objects are replaced as a whole)."""
+        t0 = self.loop.time()
+        for t, action, arg in sorted(script, key=lambda x: x[0]):
+            dt = t0 + t - self.loop.time()
+            if dt > 0:
+                self.run(dt)
+            a, b = self.clients['alice'], self.clients['bob']
+            try:
+                if action == 'limit_down':
+                    a.network.set_download_speed_limit(arg)
+                elif action == 'limit_up':
+                    b.network.set_upload_speed_limit(arg)
+                elif action == 'pause':
+                    self.loop.run_coro(a.transfers.pause(self.dl))
+                elif action == 'queue':
+                    self.loop.run_coro(a.transfers.queue(self.dl))
+                elif action == 'pause_up' and self.upload() is not None:
+                    self.loop.run_coro(b.transfers.pause(self.upload()))
+                elif action == 'queue_up' and self.upload() is not None:
+                    self.loop.run_coro(b.transfers.queue(self.upload()))
+            except Exception as e:      # a refused transition (e.g. pause of a finished transfer) is not an error
+                self.script_errors.append(f'{action}: {type(e).__name__}')
+        rest = t0 + horizon - self.loop.time()
+        if rest > 0:
+            self.run(rest)
 
     def snapshot(self):
         dl = self.dl
